@@ -65,14 +65,48 @@ def perPara (op : String) (args : List String) (od : Options Int) (para : List I
     match ed.indentOpts cxA lv o1 with | .ok e => some e.text | .error _ => none
   | _, _ => none
 
+/-- outside the homomorphism's domain (a paragraph separator with affixes): all separators are kept and
+every paragraph is still treated on its own — the non-whitespace clusters of the k-th piece of the
+result are those of the k-th paragraph, plus the continuation hyphens of Wrap (defect D18: the text of
+a paragraph was deleted in place of the stand-ins for the separator's affixes).  Causes that C07
+reports as known findings (text that is not WsStable, a word that does not fit next to an affix) are
+not reported a second time. -/
+def checkOwnParagraphs (op : String) (args : List String) (text : List Int) (od : Options Int)
+    (out : List Int) : String :=
+  let ps := splitOn text od.paraSep
+  let qs := splitOn out od.paraSep
+  if qs.length < ps.length then "fail:C11 a paragraph separator was lost"
+  -- no unique decomposition into pieces / lines: a self-overlapping or blank line separator
+  -- (`bordered`), a self-overlapping paragraph separator next to a fragment of itself (`cleanSplit`),
+  -- separators that overlap one another, a result that spells further separators
+  else if op == "indent" ∨ qs.length != ps.length ∨ bordered od.lineSep ∨ !cleanSplit od.paraSep (ps ++ qs) ∨
+      !sepsIndependent od then "ok"
+  else
+    let hy := op == "wrap"
+    let same := (ps.zip qs).all fun (p, q) =>
+      let a := (nonWsBy od.lineSep p).flatten.map fun r => [r]
+      let b := (nonWsBy od.lineSep q).flatten.map fun r => [r]
+      if hy then subseqHy a b else a == b
+    if same then "ok"
+    else
+      let w : Int := if hy then ((args.headD "").toInt?).getD 1000000 else 1000000
+      let name := if op == "wrap" then "Wrap" else if op == "justify" then "Justify" else "Align"
+      let c07 := checkNonWsPara name od text out hy w
+      if !wsStable ([0x20] ++ text ++ [0x20]) ∨
+          !wsStable ([0x20] ++ flatText (flatText text od.paraSep) od.lineSep ++ [0x20]) then
+        -- a mark that follows white space (also: the white space a separator ends with) joins it; known finding of C07
+        "skip:not-WsStable"
+      else if c07 == "ok" then "fail:C11 text moved across a paragraph separator"
+      else if c07.startsWith "skip" ∨ (c07.splitOn "not-WsStable").length > 1 ∨
+          (c07.splitOn "does not fit the width").length > 1 then "skip:cause-reported-by-C07"
+      else "fail:C11 a paragraph is not treated on its own (its text is not kept in its piece of the result)"
+
 def checkHomomorphism (op : String) (args : List String) (text : List Int) (od : Options Int)
     (out : List Int) : String :=
   if !od.preservePara then "skip:not-paragraph-mode"
   else if !madeOfLineSeps od.paraSep od.lineSep then
-    -- outside the homomorphism's domain; separators must still all be kept
-    let k := (splitOn text od.paraSep).length
-    let k' := (splitOn out od.paraSep).length
-    if k' < k then "fail:C11 a paragraph separator was lost" else "ok"
+    -- outside the homomorphism's domain
+    checkOwnParagraphs op args text od out
   else
     match paraCalls (.root text od) od with
     | .error _ => "skip:model-error"
